@@ -100,8 +100,13 @@ theorem userMapOK_MapOK (env : NsEnv) (m : List (Pfx × Str)) (h : userMapOK env
       have hmem := dget_some_mem _ _ _ hg
       have := (List.all_eq_true.mp hns) _ hmem
       simp only [Bool.not_eq_true', Bool.and_eq_false_iff] at this
-      rcases this with h1 | h1
+      rcases this with (h1 | h1) | h1
       · rw [isPrefixOf_nsK] at h1; cases h1
+      · rw [nsK_drop2] at h1
+        have := natStr_ne_nil k
+        cases hk : natStr k with
+        | nil => exact absurd hk this
+        | cons _ _ => rw [hk] at h1; simp at h1
       · rw [nsK_drop2] at h1
         have hall : (natStr k).all (fun c => decide (48 ≤ c.toNat) && decide (c.toNat ≤ 57)) = true := by
           simp only [List.all_eq_true]
